@@ -19,5 +19,16 @@ let () = iter_lines (fun line ->
                                    | [k; v] -> (nlist_of_csv k, nlist_of_csv v) | _ -> failwith "export") exports in
       let cs = shared_candidates es (nlist_of_csv path) in
       if cs = [] then "none" else String.concat "|" (List.map csv_of_nlist cs)
+  | "sdma" :: path :: exports ->
+      (* exports: key=K:value with K in D (directory) F (file) P (package path) *)
+      let es = List.map (fun kv -> match String.split_on_char '=' kv with
+                 | [k; v] -> let body = String.sub v 2 (String.length v - 2) in
+                             (nlist_of_csv k, (match v.[0] with 'D' -> EDir (nlist_of_csv body) | 'F' -> EFile (nlist_of_csv body)
+                                                              | _ -> EPkg (nlist_of_csv body)))
+                 | _ -> failwith "export") exports in
+      let cs = shared_candidates_all es (nlist_of_csv path) in
+      if cs = [] then "none" else
+      String.concat "|" (List.map (fun (k, f) -> (match k with KIsFile -> "I:" | KResource -> "R:" | KFixed -> "X:") ^ csv_of_nlist f) cs)
+  | ["sfos"; nt; s] -> csv_of_nlist (secure_core_os (nt = "1") (nlist_of_csv s))
   | ["sf"; s] -> csv_of_nlist (secure_core (nlist_of_csv s))
   | _ -> "bad-command")
